@@ -302,9 +302,14 @@ fn gen_case(rng: &mut Rng, f: &Fixture) -> Option<Case> {
             for (i, q) in lab.spent.iter().enumerate() {
                 give_asset(&mut utxo, ins.get(i)?, &pol, &name, *q);
             }
+            // a second asset name under the same policy, guaranteed to differ from `name`
             let mut sibling = name.clone();
-            sibling.truncate(31);
-            sibling.push(b'~');
+            if sibling.len() < 32 {
+                sibling.push(b'~');
+            } else {
+                let l = sibling.len() - 1;
+                sibling[l] ^= 1;
+            }
             if lab.sibling_spent > 0 {
                 give_asset(&mut utxo, &in0, &pol, &sibling, lab.sibling_spent);
             }
